@@ -18,6 +18,10 @@ open FontVerif FontVerif.Subset FontVerif.SubsetMeta FontVerif.SubsetPost
 
 /-! ## post -/
 
+/-- the 258 standard names are pairwise distinct: `standard_glyphs` (a HashMap collected from them, last entry
+wins) has exactly one index per name, the one `stdIndex` finds -/
+theorem stdNames_nodup : stdNames.Pairwise (· ≠ ·) := by decide +kernel
+
 /-- What `Plan::new` guarantees about the request a `post` version 2.0 table is rebuilt for (see
 `C17.glyph_map_monotone_bijection`: new ids pairwise distinct, old ids pairwise distinct, every new id below
 `num_output_glyphs`; `plan.glyphset.last()` bounds every kept glyph and is `None` only for an empty glyph set),
@@ -490,6 +494,11 @@ theorem hhea_num_h_metrics_is_hmtx_split (longs : List (Nat × Nat)) (lsbs : Lis
   rw [List.length_append, flatMap_const_length _ _ 4 (fun _ => rfl), flatMap_const_length _ _ 2 (fun _ => rfl)]
   simp only [List.length_map, List.length_range]
 
+
+example : subsetHead (List.replicate 54 9) 1 = some (List.replicate 50 9 ++ [0, 1] ++ List.replicate 2 9) ∧
+    subsetHead (List.replicate 53 9) 1 = none := by decide
+example : subsetHhea (List.replicate 36 9) 5 = some (List.replicate 34 9 ++ [0, 5]) ∧
+    subsetHhea (List.replicate 35 9) 5 = none := by decide
 
 /-! ## VORG -/
 
